@@ -27,4 +27,8 @@ def check(ctx, rep):
     _n13.norm_13(ctx, rep)      # a prefix is split with a start position computed from its own leaf
     from ..rules import tok as _tok12
     _tok12.tok_12(ctx, rep)     # what a scan step emits and where the scan continues agree
+    from ..rules import rxr as _rx13
+    _rx13.rx_13(ctx, rep)       # the lexical patterns are blind to the spelling of line breaks
+    from ..rules import dim as _pos1
+    _pos1.pos_1(ctx, rep)       # an offset is never recovered by searching for the text
     rep.note('Not decided: true positions.')
